@@ -2,7 +2,7 @@
 (* step st kind inputs = (st', expected observations).                                   *)
 (* Kinds flagged by is_monitor have inputs that are *observed* on the implementation and  *)
 (* a constant expected output: a mismatch there is a property violation on the real code. *)
-From VD Require Import Base.Words Model.Layout Model.Queue Extract.QueueIO Extract.QueueMon Extract.OwningIO Extract.MmioIO Model.PciBus Extract.PciBusIO Extract.PciIO Model.Blk Extract.BlkIO Model.Console Extract.ConsoleIO Extract.ConfigIO Extract.NetIO Extract.ConnMgrIO Extract.VsockIO Extract.InitIO Model.Gpu Extract.GpuIO Extract.MiscIO Model.Sound Extract.SoundIO Model.Input Extract.InputIO.
+From VD Require Import Base.Words Model.Layout Model.Queue Extract.QueueIO Extract.QueueMon Extract.OwningIO Extract.MmioIO Model.PciBus Extract.PciBusIO Extract.PciIO Model.Blk Extract.BlkIO Model.Console Extract.ConsoleIO Extract.ConfigIO Extract.NetIO Extract.ConnMgrIO Extract.VsockIO Extract.InitIO Model.Gpu Extract.GpuIO Extract.MiscIO Model.Sound Extract.SoundIO Model.Input Extract.InputIO Extract.InputCfgIO.
 (* C09: required without Import (qualified use below), so that its short names shadow nothing here *)
 From VD Require Extract.TeardownIO.
 (* C11 / C13, x86-64 hypercall PCI transport: required without Import as well *)
@@ -35,7 +35,7 @@ Definition bad : list N := [77777].
 Definition is_diag (k : N) : bool := (k =? 140).
 
 Definition is_monitor (k : N) : bool :=
-  (k =? 1) || (k =? 2) || (k =? 612) || (k =? 613) || ((149 <=? k) && (k <? 170)) || (k =? 1950) || (k =? 1951) || (k =? 1952) || mmio_is_monitor k || pci_is_monitor k || blk_is_monitor k || console_is_monitor k || config_is_monitor k || net_is_monitor k || connmgr_is_monitor k || vsock_is_monitor k || TeardownIO.teardown_is_monitor k || init_is_monitor k || gpu_is_monitor k || misc_is_monitor k || pcit_is_monitor k || sound_is_monitor k || input_is_monitor k || HypPciIO.hyp_is_monitor k || na_is_monitor k.
+  (k =? 1) || (k =? 2) || (k =? 612) || (k =? 613) || ((149 <=? k) && (k <? 170)) || (k =? 1950) || (k =? 1951) || (k =? 1952) || mmio_is_monitor k || pci_is_monitor k || blk_is_monitor k || console_is_monitor k || config_is_monitor k || net_is_monitor k || connmgr_is_monitor k || vsock_is_monitor k || TeardownIO.teardown_is_monitor k || init_is_monitor k || gpu_is_monitor k || misc_is_monitor k || pcit_is_monitor k || sound_is_monitor k || input_is_monitor k || HypPciIO.hyp_is_monitor k || na_is_monitor k || inputcfg_is_monitor k || sndevt_is_monitor k.
 
 Definition dir_reads (d : N) : bool := (d =? 0) || (d =? 2).
 Definition dir_writes (d : N) : bool := (d =? 1) || (d =? 2).
@@ -80,6 +80,8 @@ Definition step_alloc (st : mstate) (k : N) (ins : list N) : mstate * list N :=
     | _ => (st, bad) end
   else if (1000 <=? k) && (k <? 1100) then (st, mmio_step k ins)
   else if (1200 <=? k) && (k <? 1300) then (st, pci_step k ins)
+  (* ---- C13 / C07: VirtIOInput configuration queries (kinds 1320..1339) ---- *)
+  else if (1320 <=? k) && (k <? 1340) then (st, inputcfg_step k ins)
   else if (1300 <=? k) && (k <? 1400) then (st, config_step k ins)
   (* ---- C14: block driver (kinds 1400..1499) ---- *)
   else if (1400 <=? k) && (k <? 1500) then
@@ -132,6 +134,11 @@ Definition step_alloc (st : mstate) (k : N) (ins : list N) : mstate * list N :=
     (if input_is_monitor k then (st, input_monitor k ins) else
      let i := match st with MInput i => i | _ => None end in
      let '(i', o) := input_step i k ins in (MInput i', o))
+  (* ---- C19: VirtIOSound event queue / latest_notification (kinds 1980..1989; the state is the event queue) ---- *)
+  else if (1980 <=? k) && (k <? 1990) then
+    (if sndevt_is_monitor k then (st, sndevt_monitor k ins) else
+     let q := match st with MOwning q => q | _ => None end in
+     let '(q', o) := sndevt_step q k ins in (MOwning q', o))
   (* 1952 MONITOR (C19, socket receive): [header.len; length of the body handed on; body = bytes after the header] *)
   else if k =? 1952 then (st, match ins with [hl; bl; same] => [b2n ((hl =? bl) && (same =? 1))] | _ => bad end)
   else if k =? 1950 then (st, [b2n (mon_owning ins)])
